@@ -30,6 +30,8 @@ FIELDS = [
     ("k", "Sub", "{'v': 1}", "{'v': 'x'}", False),
     ("l", "Optional[PosInt]", "3", "-1", False),
     ("m", "NotNeg", "2", "-2", True),
+    # a str field that itself accepts both values; the class gets a typed property computed from it (np -> int), whose conversion fails on 'cheap'
+    ("n", "str", "'5'", "'cheap'", True),
 ]
 PRELUDE = """from utype import Schema, Field, Options, Rule
 from typing import List, Dict, Union, Optional, Tuple
@@ -61,6 +63,8 @@ def class_source(names, addition, dfs):
             lines.append("    %s: %s" % (n, ann))
         else:
             lines.append("    %s: %s = Field(required=False)" % (n, ann))
+    if "n" in names:
+        lines += ["    @property", "    def np(self) -> int:", "        return self.n"]
     return "\n".join(lines) + "\n"
 
 
@@ -121,12 +125,14 @@ def main():
         ck.note("model-level counterexample: %s" % mc.invariant_violated)
         ck.count("model_only_counterexamples")
     records, n = [], 0
-    subsets = [s for k in (2, 3, 5) for s in itertools.combinations("abcdefgh", k)] + [s for k in (1, 2, 3) for s in itertools.combinations("aijklm", k)]
+    subsets = [s for k in (2, 3, 5) for s in itertools.combinations("abcdefgh", k)] + [s for k in (1, 2, 3) for s in itertools.combinations("aijklmn", k)]
     if not thorough:
         subsets = [("a", "b", "c"), ("a", "d", "e"), ("b", "c", "d"), tuple("abcde"), ("a", "e"), ("a", "f", "g"), ("g", "h"), ("c", "g", "h", "f"),
-                   ("i",), ("a", "i"), ("i", "j", "k"), ("k", "l"), ("a", "m"), ("j", "l", "m"), ("i", "m")]
+                   ("i",), ("a", "i"), ("i", "j", "k"), ("k", "l"), ("a", "m"), ("j", "l", "m"), ("i", "m"), ("n",), ("a", "n"), ("b", "d", "n")]
     for kind in ("class", "class-dfs", "func"):
         for names in subsets:
+            if kind == "func" and "n" in names:
+                continue        # properties belong to classes
             for addition in ((False, None) if kind != "func" else (None,)):
                 ns = {}
                 if kind == "func":
@@ -147,10 +153,19 @@ def main():
                             if s != "missing":
                                 data[fn_] = eval(good if s == "good" else bad)
                             fails = s == "bad" or (s == "missing" and req)
+                            if fn_ == "n":
+                                # the field takes both values; it is the property computed from it that fails on the bad one
+                                items.append({"name": "n", "fails": s == "missing"})
+                                if s != "missing":
+                                    items.append({"name": "np", "fails": s == "bad"})
+                                continue
                             items.append({"name": fn_, "fails": fails})
                         for k in extra:
                             data[k] = 1
                             items.append({"name": k, "fails": addition is False})
+                        if any(it["fails"] for it in items if it["name"] != "np"):
+                            # properties are computed from a valid set of fields only: no field phase, no property to fail
+                            items = [it for it in items if it["name"] != "np"]
                         if kind == "func" and any(s == "missing" and req for (f, a, g, b, req), s in zip(fdefs, st)):
                             continue    # Python would not bind the call
                         for maxe in ((0, 1, 2, 3) if thorough else (0, rng.choice([1, 2, 3]))):
